@@ -157,7 +157,17 @@ impl Fail {
     }
 }
 
+thread_local! {
+    pub static LAST_ERROR: std::cell::RefCell<String> = std::cell::RefCell::new(String::new());
+}
+
+/// Raw host error of the last failed invocation (diagnostics only).
+pub fn last_error() -> String {
+    LAST_ERROR.with(|l| l.borrow().clone())
+}
+
 pub fn classify_error(err: soroban_sdk::Error) -> Fail {
+    LAST_ERROR.with(|l| *l.borrow_mut() = format!("{err:?}"));
     use soroban_sdk::xdr::{ScErrorCode, ScErrorType};
     if err.is_type(ScErrorType::Contract) {
         return Fail::Contract(err.get_code());
